@@ -17,7 +17,8 @@ Record case := mkCase {
   c_cfg : list (N * ra);        (* per interface: the RA built from its configuration (RouterAdvertisement(true)) *)
   c_fwd0 : list (N * bool);     (* initial flags *)
   c_events : list event;
-  c_obs : list (option obs)     (* parallel to c_events: None for SetFwd *)
+  c_obs : list (option obs)     (* parallel to c_events: None for SetFwd; for GenFail whatever the implementation
+                                   produced during the attempt (nothing, if it fails closed) *)
 }.
 
 Definition empty_ra : ra := mkRA 0 false false Medium 0 0 0 [].
@@ -48,8 +49,26 @@ Fixpoint all2 {A B} (f : A -> B -> bool) (l1 : list A) (l2 : list B) : bool :=
   | _, _ => false
   end.
 
+(* an attempt that produced nothing: no RA written / compared, no API lifetime, no gauge, no misconfiguration line *)
+Definition silent (o : obs) : bool :=
+  match ob_ra o, ob_lifetime_s o, ob_fwd_gauge o with
+  | None, None, None => match ob_surfaced o with Some true => false | _ => true end
+  | _, _, _ => false
+  end.
+
+Fixpoint agree_from (evs : list event) (ms : list (option out)) (os : list (option obs)) : bool :=
+  match evs, ms, os with
+  | [], [], [] => true
+  | GenFail _ _ :: te, None :: tm, Some o :: to =>
+      (* the model generates nothing; the failing read itself is the one State call of the attempt *)
+      silent o && N.eqb (ob_reads o) 1 && agree_from te tm to
+  | GenFail _ _ :: _, _, _ => false
+  | _ :: te, m :: tm, o :: to => agree_one m o && agree_from te tm to
+  | _, _, _ => false
+  end.
+
 Definition agree (c : case) : bool :=
-  all2 agree_one (run (cfg_of c) (fwd0_of c) (c_events c)) (c_obs c).
+  agree_from (c_events c) (run (cfg_of c) (fwd0_of c) (c_events c)) (c_obs c).
 
 (* ---- holds: the property text, checked on the observations.
    The checker keeps its own record of the flags (an association list updated at every flip). *)
@@ -92,6 +111,13 @@ Fixpoint holds_from (cfg : N -> ra) (flags : list (N * bool)) (evs : list event)
   | [], [] => true
   | SetFwd i b :: te, None :: to => holds_from cfg ((i, b) :: flags) te to
   | Gen i p :: te, Some o :: to => holds_one cfg (flag_now false flags i) i p o && holds_from cfg flags te to
+  (* the State read of this attempt failed: the daemon does not know whether the interface forwards, so it must
+     not produce an RA at all (flag on or off): nothing sent / compared, no lifetime rendered, no gauge exported *)
+  | GenFail i p :: te, Some o :: to =>
+      match ob_ra o, ob_lifetime_s o, ob_fwd_gauge o with
+      | None, None, None => true
+      | _, _, _ => false
+      end && holds_from cfg flags te to
   | _, _ => false
   end.
 
